@@ -184,7 +184,8 @@ def run(ctx: core.Ctx, only=None) -> core.Result:
     cases = [o.get('input', o) for o in only] if only is not None else core.corpus_cases(ctx.prop) + [gen_case(ctx.rng) for _ in range(ctx.scale(14, 150))]
     for case in cases:
         case = {k: (tuple(case[k]) if k in ('alpha_lim', 'beta_lim') else case[k]) for k in keys}
-        run_case(ctx, res, case, lines, post)
+        with core.guarded(res, 'scenario-raised', case):
+            run_case(ctx, res, case, lines, post)
     t = core.try_driver(['itp.snaptol 1'], res, 'Gen.snapTol')
     if t is None:
         return fallback_oracle(ctx, res, post)
